@@ -220,13 +220,13 @@ def h_model_strand(n):
         polyt, polya = bool(g.bool("path_starts_at_polyt")), bool(g.bool("path_ends_at_polya"))
         count = g.int("path_read_count", 0, 50)
         c = flblock.make_constructor(_OneBased(seq), flblock.default_params(level.name))
-        old = set(type(c).detected_known_isoforms)
+        old = flblock.get_reported()
+        old = set(old) if old is not flblock._MISSING else old
         flblock.add_path(c, introns, 1, 100, count, polyt=polyt, polya=polya)
         try:
             call(g, c.construct_fl_isoforms)
         finally:
-            type(c).detected_known_isoforms.clear()
-            type(c).detected_known_isoforms.update(old)
+            flblock.set_reported(old)
         strands = [site_strand(p) for p in pairs]
         nf, nr = strands.count("+"), strands.count("-")
         g.check(len(c.transcript_model_storage) <= 1, "one path gives at most one model")
